@@ -4,7 +4,7 @@
 # generated directory tree, compared under coqc/vm_compute with Model/Cli.v (cli_run over the library's callback
 # events, computed by harness/src/bin/c18.rs with the ScanParams that params_of_flags prescribes) and with
 # Spec/CliSpec.v (documented format over the library's result lists and the generator's rule declarations).
-import json, os, shutil, subprocess, hashlib
+import json, os, shutil, subprocess, hashlib, threading, time, errno
 from concurrent.futures import ThreadPoolExecutor
 from .. import core
 from ..core import gN, gZ, gbool, glist, gbytes, gopt, gpair
@@ -552,6 +552,35 @@ class C18(Prop):
         inv["argv_flags"] = argv_flags(rng.fork("argv"), inv)
         return {"rule_files": rf, "decls": decls, "root": root, "tree": tree, "ext": ext, "inv": inv}
 
+    def gen_probe(self, rng):
+        """controlled schedule: a scan list of named pipes, --no-mmap, n workers; the driver picks the completion order"""
+        for k in range(20):
+            rf, decls = gen_rules(rng.fork("rules%d" % k))
+            if not any(d["global"] for d in decls):
+                break
+        else:
+            rf, decls = [{"ns": None, "name": "rules0.yar", "text": ""}], []
+        rf = [dict(r) for r in rf]
+        rf[-1]["text"] += "rule zz_always { condition: true }\nrule zz_never { condition: false }\n"
+        ns = rf[-1]["ns"] or "default"
+        for nm in ("zz_always", "zz_never"):
+            decls = decls + [{"ns": ns, "name": nm, "tags": [], "metas": [], "private": False, "global": False, "strings": []}]
+        threads = rng.choice([1, 2, 2, 3, 4, 5, 8, 16])
+        m = rng.range(1, min(threads + 4, 12)) if not rng.chance(1, 3) else threads + rng.range(1, 3)
+        names = rng.shuffle(FILE_NAMES)[:m]
+        fifos = [{"name": nm, "hex": gen_content(rng).get("hex", hx(b"abc hello"))} for nm in names]
+        f = gen_flags(rng.fork("flags"), decls)
+        f["i"] = f["t"] = f["l"] = None
+        if f["w"] == "fail":
+            f["w"] = "print"
+        f["c"] = rng.chance(1, 2)
+        inv = {"mode": rng.choice(["scan", "yr", "load"]), "flags": f, "threads": threads, "no_mmap": True,
+               "recursive": rng.chance(1, 2), "no_follow": False, "skip_larger": None,
+               "target": {"kind": "list", "entries": ["t/" + x["name"] for x in fifos], "final_newline": True},
+               "probe": {"fifos": fifos, "choices": [rng.below(1000) for _ in fifos]}}
+        inv["argv_flags"] = argv_flags(rng.fork("argv"), inv)
+        return {"rule_files": rf, "decls": decls, "root": "t", "tree": [], "ext": [], "inv": inv}
+
     def generate(self, ctx, rng, n):
         cases = []
         i = 0
@@ -562,6 +591,8 @@ class C18(Prop):
             root, tree, ext = gen_tree(r.fork("tree"))
             for k in range(4):
                 cases.append(self.gen_case(r.fork("k%d" % k), (rf, decls, root, tree, ext)))
+            if i % 2 == 0:
+                cases.append(self.gen_probe(r.fork("probe")))
         return cases[:n]
 
     def budget(self, tier):
@@ -672,10 +703,126 @@ class C18(Prop):
         rec(start, 0, False)
         return out
 
+    def cli_cmd(self, case):
+        inv = case["inv"]
+        rule_args = [(rf["ns"] + ":" if rf["ns"] else "") + rf["name"] for rf in case["rule_files"]]
+        tgt = self.target_arg(case)
+        if inv["mode"] == "scan":
+            return [CLI, "scan"] + inv["argv_flags"] + sum([["-f", r] for r in rule_args], []) + ["--", tgt]
+        if inv["mode"] == "yr":
+            return [CLI, "yr"] + inv["argv_flags"] + ["--"] + rule_args + [tgt]
+        if inv["mode"] == "load":
+            return [CLI, "load"] + inv["argv_flags"] + ["--", "compiled.bin", tgt]
+        return [CLI, "yr", "-C"] + inv["argv_flags"] + ["--", "compiled.bin", tgt]
+
+    def run_probe(self, d, case):
+        """named pipes as scan-list entries; returns the cli result plus the observed schedule"""
+        inv = case["inv"]
+        pr = inv["probe"]
+        env = dict(os.environ, RUST_BACKTRACE="0", NO_COLOR="1")
+        rule_args = [(rf["ns"] + ":" if rf["ns"] else "") + rf["name"] for rf in case["rule_files"]]
+        if inv["mode"] in ("load", "yrC"):
+            pre = subprocess.run([CLI, "save"] + sum([["-f", r] for r in rule_args], []) + ["compiled.bin"], cwd=d, env=env,
+                                 stdout=subprocess.PIPE, stderr=subprocess.PIPE, timeout=CLI_TIMEOUT)
+            if pre.returncode != 0:
+                return {"save_failed": pre.returncode, "stderr": pre.stderr.decode("utf-8", "replace")[-800:]}
+        paths = ["t/" + f["name"] for f in pr["fifos"]]
+        content = {"t/" + f["name"]: bytes.fromhex(f["hex"]) for f in pr["fifos"]}
+        for pth in paths:
+            os.mkfifo(os.path.join(d, pth))
+        cmd = self.cli_cmd(case)
+        proc = subprocess.Popen(cmd, cwd=d, env=env, stdout=subprocess.PIPE, stderr=subprocess.PIPE)
+        bufs = {"o": b"", "e": b""}
+
+        def pump(stream, key):
+            while True:
+                chunk = stream.read1(65536) if hasattr(stream, "read1") else stream.read(4096)
+                if not chunk:
+                    break
+                bufs[key] += chunk
+
+        th = [threading.Thread(target=pump, args=(proc.stdout, "o"), daemon=True),
+              threading.Thread(target=pump, args=(proc.stderr, "e"), daemon=True)]
+        for t in th:
+            t.start()
+        deadline = time.time() + CLI_TIMEOUT
+        held, released, held_counts, order = {}, set(), [], []
+        n = max(1, inv["threads"])
+        ok = True
+
+        def poll_held():
+            for pth in paths:
+                if pth in held or pth in released:
+                    continue
+                try:
+                    held[pth] = os.open(os.path.join(d, pth), os.O_WRONLY | os.O_NONBLOCK)
+                except OSError as ex:
+                    if ex.errno != errno.ENXIO:
+                        raise
+
+        def has_marker(pth):
+            pb = pth.encode()
+            for ln in bufs["o"].split(b"\n")[:-1]:
+                if ln.startswith(pb + b": ") or ln.endswith(b" " + pb):
+                    return True
+            return False
+
+        for k in range(len(paths)):
+            want = min(n, len(paths) - k)
+            # wait until the expected number of workers is blocked reading; then look once more
+            # after a short pause so that *more* concurrent readers than expected would be seen too
+            settle = time.time() + 20     # fewer readers than expected for this long: record what is there
+            while time.time() < min(deadline, settle) and proc.poll() is None:
+                poll_held()
+                if len(held) >= want:
+                    break
+                time.sleep(0.002)
+            time.sleep(0.02 if k == 0 else 0.002)
+            poll_held()
+            held_counts.append(len(held))
+            if not held:
+                ok = False
+                break
+            cands = [pth for pth in paths if pth in held]
+            pick = cands[pr["choices"][k] % len(cands)]
+            fd = held.pop(pick)
+            os.set_blocking(fd, True)
+            data = content[pick]
+            while data:
+                w = os.write(fd, data)
+                data = data[w:]
+            os.close(fd)
+            released.add(pick)
+            order.append(pick)
+            while time.time() < deadline and proc.poll() is None and not has_marker(pick):
+                time.sleep(0.001)
+            if not has_marker(pick):
+                # the process may have exited already with the marker still in the pipe
+                time.sleep(0.05)
+        for fd in held.values():
+            os.close(fd)
+        try:
+            proc.wait(timeout=max(1, deadline - time.time()))
+        except subprocess.TimeoutExpired:
+            proc.kill()
+            return {"timeout": True, "cmd": cmd[1:], "stdout": bufs["o"][-2000:].hex()}
+        for t in th:
+            t.join(timeout=5)
+        # regular files with the same content for the harness
+        for pth in paths:
+            os.unlink(os.path.join(d, pth))
+            open(os.path.join(d, pth), "wb").write(content[pth])
+        return {"rc": proc.returncode, "stdout": bufs["o"].hex(), "stderr": bufs["e"].hex(), "cmd": cmd[1:],
+                "order": order, "held": held_counts, "driver_ok": ok}
+
     def one(self, ix_case):
         ix, case = ix_case
         d = os.path.join(self.base, "%d" % ix)
         self.materialise(d, case)
+        if "probe" in case["inv"]:
+            res = {"dir": d, "cli": self.run_probe(d, case)}
+            res["candidates"] = ["t/" + f["name"] for f in case["inv"]["probe"]["fifos"]]
+            return res
         res = {"dir": d, "cli": self.run_cli(d, case)}
         t = case["inv"]["target"]
         if t["kind"] == "dir":
@@ -729,6 +876,8 @@ class C18(Prop):
             o = {"cli": r["cli"], "lib": lib, "found": r.get("found"), "entries": r.get("entries")}
             outs.append(o)
             inv = case["inv"]
+            if "probe" in inv:
+                ctx.count("controlled-schedule")
             ctx.count("mode=" + inv["mode"])
             ctx.count("target=" + inv["target"]["kind"])
             ctx.count("threads=%s" % inv["threads"])
@@ -817,6 +966,14 @@ class C18(Prop):
         p = self.parts(case, out)
         if p is None:
             return (False, False, 0)
+        if "probe" in case["inv"]:
+            cli = out["cli"]
+            if not cli.get("driver_ok"):
+                return (False, False, 0)
+            return p["lets"] + "C18_probe_case (%s) (%s) (%s) (%s) %s %s %s %s %s %s %s %d" % (
+                p["s"], p["o"], p["i"], p["used"], p["decls"], p["tbl"],
+                glist([gb(e) for e in self.list_entries(case)]), glist([gb(e) for e in cli["order"]]),
+                glist([gN(h) for h in cli["held"]]), p["out_exact"], p["err"], p["rc"])
         return p["lets"] + "C18_case (%s) (%s) (%s) (%s) %s (%s) (%s) %s %s %s %d" % (
             p["s"], p["o"], p["i"], p["used"], p["decls"], p["target"], p["starget"], p["tbl"], p["out"], p["err"], p["rc"])
 
@@ -864,7 +1021,7 @@ class C18(Prop):
             starget = "SFile %s" % gb(t["path"])
         else:
             es, ss = [], []
-            for e in out["entries"]:
+            for e in (out.get("entries") or []):
                 if "dir" in e:
                     es.append("LDir %s %s" % (gb(e["dir"]), glist([self.g_node(case, n) for n in self.find_dir(case, e["dir"])])))
                     ss.append("inr %s" % self.g_found(e["found"]))
@@ -889,10 +1046,11 @@ class C18(Prop):
         elif stdout:
             return None                    # output does not end with a newline
         err_lines = [l for l in stderr.split(b"\n") if l.startswith(self.STDERR_PREFIXES)]
+        out_exact = glist([gbytes(l) for l in out_lines])
         if t["kind"] != "file":
             out_lines = sorted(out_lines)
         lets = "".join("let %s := %s in " % (name, txt) for txt, name in self._ms.items())
-        return {"lets": lets, "s": s_opts, "o": o_opts, "i": i_opts, "used": g_used, "decls": decls, "target": target,
+        return {"lets": lets, "out_exact": out_exact, "s": s_opts, "o": o_opts, "i": i_opts, "used": g_used, "decls": decls, "target": target,
                 "starget": starget, "tbl": glist(tbl), "out": glist([gbytes(l) for l in out_lines]),
                 "err": glist([gbytes(l) for l in sorted(err_lines)]), "rc": cli["rc"],
                 "out_lines": out_lines, "err_lines": sorted(err_lines)}
